@@ -1407,12 +1407,13 @@ def snapshot_designs(ctx):
     rng = ctx.rng
     out = []
     for n in range(ctx.scale(6, 48)):
-        kinds = [rng.choice(["u", "s"]), rng.choice(["u", "s", "bv"])]
-        ports = []
-        for kd in kinds:
-            w = rng.randint(2, 3)
-            ports += [(kd, w)] + ([(kd, w)] if rng.random() < 0.5 and sum(width(t) for t in ports) + 2 * w <= 9 else [])
+        kd = rng.choice(["u", "s", "u", "s", "bv"])
+        w = rng.randint(2, 3)
+        ports = [(kd, w)] + ([(kd, w)] if w == 2 and rng.random() < 0.6 else [])
         ports.append(BIT)
+        ports.append((rng.choice(["u", "s", "bv"]), 4))  # object of the run-time index
+        ports.append(("u", 2))  # run-time index operand (2^2 <= 4)
+        iu = len(ports) - 1
         shadows = {"v": list(range(len(ports)))}
         g = Gen(rng, ports, 4, shadows)
         g.force_var = True
@@ -1426,8 +1427,8 @@ def snapshot_designs(ctx):
                 cand += [("rsz", v, w), ("rsz", v, w + rng.randint(1, 3)), ("rszz", v, w + 3, rng.randint(1, 2)),
                          ("ar", "add", v, ("i", 1)), ("ar", "sub", ("i", 0), v), ("shl", v, ("i", 1)), ("shr", v, ("i", 1)),
                          ("inv", v), ("neg", v), ("cat", v, v), ("cmp", rng.choice(COPS), v, ("i", 1)),
-                         ("ite", ("p", len(ports) - 1, "v", BIT), v, ("inv", v)), ("truth", v), ("not", v),
-                         ("sel", ("p", len(ports) - 1, "v", BIT), [(0, v), (1, ("inv", v))], None)]
+                         ("ite", ("p", ports.index(BIT), "v", BIT), v, ("inv", v)), ("truth", v), ("not", v),
+                         ("sel", ("p", ports.index(BIT), "v", BIT), [(0, v), (1, ("inv", v))], None)]
                 if t[0] == "s":
                     cand += [("abs", v)]
             elif t[0] == "bv":
@@ -1436,6 +1437,18 @@ def snapshot_designs(ctx):
                 cand += [("inv", v), ("bo", "and", v, v), ("not", v), ("cat", v, v)]
         rng.shuffle(cand)
         picked = cand[: rng.randint(4, 7)]
+        # run-time index with a VARIABLE index: `r = x[idx]` selects the element at the value idx has when the
+        # expression is evaluated (cohdl copies the index into a Temporary); the index Variable is reassigned before
+        # r is used.  The indexed object is an input port (or a view of it / a value), which does not change.
+        vidx = ("p", iu, "v", ("u", 2))
+        idxs = []
+        for i, t in enumerate(ports[:iu]):
+            if is_vec(t) and t[1] >= 4:
+                base = ("p", i, False, t)
+                idxs += [("idxrt", base, vidx), ("idxrt", (rng.choice(["uns", "sgn", "bv"]), base), vidx),
+                         ("inv", ("idxrt", base, vidx)), ("bo", "xor", ("idxrt", base, vidx), ("p", iu - 2, False, BIT))]
+        rng.shuffle(idxs)
+        picked += idxs[: rng.randint(2, 4)]
         for _ in range(rng.randint(2, 4)):
             e = g.gen_value(root_type(rng, 4), rng.randint(1, 2))
             if e is not None:
